@@ -745,9 +745,39 @@ func checkSensorRead(c *Ctx, r *Report) {
 		// data flow: ConvertReading(parser.Parse(Rsp.Reading)) with factors of the reader
 		okFlow := false
 		if pc, ok := conv.Call.Args[1].(*ssa.Call); ok && pc.Call.IsInvoke() && pc.Call.Method.Name() == "Parse" {
+			// the byte parsed is the response's reading — read where Read is, or handed to a spliced
+			// helper as an argument
+			isReading := false
 			if ld, ok := pc.Call.Args[0].(*ssa.UnOp); ok && apOf(ld.X).SelString() == fReading+".Rsp.Reading" {
+				isReading = true
+			} else if os := viewOrigins(lin, pc.Call.Args[0]); len(os) > 0 {
+				isReading = true
+				for _, o := range os {
+					ld, isLd := stripConv(o).(*ssa.UnOp)
+					if !isLd || ld.Op != token.MUL {
+						isReading = false
+						continue
+					}
+					aps := viewAPs(lin, ld.X)
+					if len(aps) == 0 {
+						isReading = false
+					}
+					for _, a := range aps {
+						if a.SelString() != fReading+".Rsp.Reading" {
+							isReading = false
+						}
+					}
+				}
+			}
+			if isReading {
 				// the parser and the factors are the reader's own (its one field of each type)
 				pa, fa := apOf(pc.Call.Value), apOf(conv.Call.Args[0])
+				if as := viewAPs(lin, pc.Call.Value); len(as) == 1 {
+					pa = as[0]
+				}
+				if as := viewAPs(lin, conv.Call.Args[0]); len(as) == 1 {
+					fa = as[0]
+				}
 				ownField := func(a AP, typ string) bool {
 					if len(a.Sel) != 1 {
 						return false
